@@ -204,12 +204,68 @@ def oracle_multiroot(case, obs):
     return fsrun.selection_violation(case, obs, what=("order",))
 
 
+# ------------------------------------------------------------------ directory mode on real trees (with linked directories)
+def gen_depth_real(rng, n, tier):
+    """directories below `in` (depth <= 4), some of them symbolic links to (empty) directories that live higher up in the
+    file system than the link itself, inside or outside the input directory; every directory entry is renamed for real.
+    (The linked directories are empty: an entry reached *through* a link to the outside is refused by the containment
+    rule, and one reached by two routes inside is the known finding K2 — neither is an ordering question.)"""
+    for _ in range(n):
+        spec = {"in": None}
+        for _ in range(rng.randint(2, 7)):
+            spec["in/" + "/".join(rng.choice(["a", "b", "c"]) for _ in range(rng.randint(1, 4)))] = None
+        dirs = [p for p in list(spec)]
+        for p in dirs:   # (all ancestors are entries too)
+            while "/" in p:
+                p = p.rsplit("/", 1)[0]
+                spec.setdefault(p, None)
+        links = 0
+        for k in (1, 2):
+            if rng.random() < 0.5:
+                shared = rng.choice(["sh%d", "in/sh%d"]) % k
+                spec[shared] = None
+                parent = rng.choice(sorted(spec, key=lambda q: (-q.count("/"), q))[:3] if rng.random() < 0.6 else
+                                    [q for q in spec if q == "in" or q.startswith("in/")])
+                if not (parent == "in" or parent.startswith("in/")) or parent.startswith("in/sh") or "lnk" in parent:
+                    parent = "in"      # (never below a linked directory: no cycles, the linked directories stay empty)
+                spec[parent + "/lnk%d" % k] = ["link", os.path.relpath(shared, parent)]
+                links += 1
+        yield {"spec": spec, "links": links, "template": rng.choice(["x_%Name()", "%Name()_y", "%Upper(){%Name()}2"])}
+
+
+def impl_depth_real(case):
+    from . import c07
+    spec = {p: (v if v is None or isinstance(v, str) else tuple(v)) for p, v in case["spec"].items()}
+    with common.Sandbox(spec) as root:
+        rootp = os.path.realpath(root)
+        walked = c07.walk_follow(rootp, ["in"])
+        out, err, rc = common.run_cli(["--directory", "-r", "--", case["template"], os.path.join(rootp, "in")])
+        return {"rc": rc, "err": err.strip()[-300:] if rc else "", "events": [[s_, d_] for s_, d_, _ in common.parse_events(out)],
+                "designated": sorted(rel for r, rel, d in (walked or []) if d)}
+
+
+def oracle_depth_real(case, obs):
+    if obs["rc"] != 0:
+        return f"directory-mode run over {sorted(case['spec'])} ends with exit {obs['rc']}: {obs['err'][-160:]}"
+    srcs = [s_ for s_, _ in obs["events"]]
+    if sorted(srcs) != obs["designated"]:
+        return f"renamed directories {sorted(srcs)} are not the designated ones {obs['designated']}"
+    for i, a in enumerate(srcs):
+        for b in srcs[i + 1:]:
+            if b.startswith(a + "/"):
+                return f"directory {a!r} is processed before its descendant {b!r}"
+    return None
+
+
 def streams(tier):
     return [
         Stream("sorter", gen_sorter, impl_sorter, lines_sorter, obs_sorter, oracle=oracle_sorter,
                nontrivial=nontrivial_sorter, classify=classify_sorter, quick=4000, thorough=40000, parallel=True),
         Stream("depth", gen_depth, impl_depth, lines_depth, obs_sorter, oracle=oracle_depth,
                nontrivial=lambda c, o: len(c["rels"]) >= 3, quick=3000, thorough=30000),
+        Stream("depth_real", gen_depth_real, impl_depth_real, oracle=oracle_depth_real, parallel=True, quick=600, thorough=8000,
+               nontrivial=lambda c, o: len(o["events"]) >= 3,
+               classify=lambda c, o: ["links:%d" % c["links"], "n:%d" % min(len(o["events"]), 8), "rc:%s" % o["rc"]]),
         Stream("multiroot_order", gen_multiroot, impl_multiroot, oracle=oracle_multiroot, parallel=True, quick=800, thorough=10000,
                nontrivial=lambda c, o: len(c["roots"]) + len(c["explicit"]) >= 2 and len(o["gens"]) >= 3,
                classify=lambda c, o: ["roots:%d" % len(c["roots"]), "explicit:%d" % len(c["explicit"]), "invert" if c["invert"] else "asc",
